@@ -12,9 +12,9 @@ chk("C20", "domx",
     "Trusts the harness's own reference definitions (a few lines each, table-free) and that the exported wrappers add nothing (they are single assignments). Quick tier thins the 5.6M-second duration domain after 2 days to day boundaries and a 61 s stride.",
     "DESIGN.md section 4 C20")
 ENGINES += [
-    {"name": "envx", "path": "harness/env", "serves_properties": ["C01", "C02", "C03", "C04", "C09", "C10", "C11", "C12"],
+    {"name": "envx", "path": "harness/env", "serves_properties": ["C01", "C02", "C03", "C04", "C05", "C09", "C10", "C11", "C12", "C13", "C14", "C16"],
      "kind_free_text": "deviation-bounded exhaustive exploration of environment answers (reply menus at every Transport.Send) on the real library over an in-memory socket model, against the independent reference BMC in harness/ref"},
-    {"name": "refbmc", "path": "harness/ref", "serves_properties": ["C01", "C02", "C03", "C04", "C09", "C10", "C11", "C12"],
+    {"name": "refbmc", "path": "harness/ref", "serves_properties": ["C01", "C02", "C03", "C04", "C05", "C06", "C07", "C09", "C10", "C11", "C12", "C13", "C14", "C15", "C16", "C18"],
      "kind_free_text": "independent reference implementation of RMCP+/RAKP/integrity/AES-CBC and a small BMC (imports nothing from gebn/bmc); the oracle"},
 ]
 chk("C01", "envx+refbmc",
@@ -33,7 +33,7 @@ chk("C12", "envx+refbmc",
     "Universe of 4 suites; the BMC's follow-through makes a silently accepted downgrade observable.",
     "DESIGN.md section 4 C12, appendix A.4")
 ENGINES += [
-    {"name": "histx", "path": "harness/checks/hist.go", "serves_properties": ["C03", "C04", "C09", "C10", "C11"],
+    {"name": "histx", "path": "harness/checks/hist.go", "serves_properties": ["C03", "C04", "C05", "C09", "C10", "C11", "C17", "C18"],
      "kind_free_text": "envx iterated over caller histories: all command sequences up to depth D on one real connection/session x all per-attempt answer vectors with <= k deviations, replaying each path on a fresh instance"},
 ]
 chk("C03", "histx+refbmc",
@@ -92,3 +92,27 @@ chk("C17", "domx+histx",
     "For each of the 31 decodable layers every ordered pair from a shape catalogue (valid encodings per branch and tail length, all-FF/all-00 variants, every truncation, extensions) is decoded earlier-then-later into one value and later into a fresh one; all exported fields, contents and payload must agree (error status too). Connection level: all ordered pairs over 12 operations (incl. SDR retrieval and DCMI enumeration) in and outside a session, the first also failed/retried (k<=1), second result must equal the fresh-connection result.",
     "Observable = %+v rendering (nil vs empty slice not distinguished).",
     "DESIGN.md section 4 C17")
+ENGINES += [
+    {"name": "vclock+udp", "path": "harness/checks/c13.go", "serves_properties": ["C13", "C18"],
+     "kind_free_text": "virtual clock behind the back-off seam and the transport (lost replies and sleeps charge virtual time, the deadline cancels the caller's context) plus a UDP-loopback reference BMC for hook-free real-time replay"},
+]
+chk("C13", "envx(virtual time)+udp replay",
+    "exhaustive fault enumeration over (call, fault pattern, step, deadline ratio) in virtual time on the implementation, every case class replayed on real sockets",
+    "8 blocking calls x 5 fault patterns (black hole, reply after the per-attempt timeout, garbage, temporary code, truncated) applied from every send of the call onward (sticky) or once, x deadline/timeout ratios <1, =1, >1, plus already-expired contexts. Virtual time makes every point at which the deadline can fall enumerable: the oracle requires no back-off sleep after expiry, a bounded number of immediately-failing transmissions, per-attempt contexts derived from the caller's, an error unless valid responses were delivered, and that the call returns. The same cases are replayed hook-free (DialV2, stock exponential back-off, real timers) over UDP loopback: return <= deadline + 250 ms.",
+    "Virtual model: lost reply = per-attempt timeout, sleep = 250 ms quantum. Real replay: quick runs one or two steps per (call, pattern); thorough every step x 4 deadlines; an overrun must repeat 5 times to be reported.",
+    "DESIGN.md section 4 C13")
+chk("C14", "envx+refbmc",
+    "exhaustive enumeration of repositories (<= n records over a shape alphabet, structured to 40) and of modifications injected before every request of the walk",
+    "Every repository of <= 2 (thorough 3) records over 25 record shapes (full sensor records with 4 ID-string encodings and lengths 0..max, compact, locator, OEM) x 6 ID layouts (first ID zero/non-zero, ascending, descending, sparse, near 0xFFFE), structured repositories of 1..40 records; then before each request of RetrieveSDRRepository one (thorough: two) of {add, erase first, erase last, reservation cancelled, add within the same second, add with reservation kept}; oracle: the result is exactly the full sensor records of one single repository state, no older than the last modification the BMC reported through its timestamps, each keyed by its own ID, every field equal to the reference decoding.",
+    "A modification that neither bumps a timestamp nor is followed by a reservation-checked request is undetectable by the protocol; then either neighbouring state is accepted.",
+    "DESIGN.md section 4 C14, appendix A.6")
+chk("C16", "envx+refbmc",
+    "exhaustive enumeration of cipher-suite record lists / instance counts x page sizes through the real paging loops",
+    "Cipher suites: every list of <= 2 (thorough 3) records over 32 shapes, lists whose encoding is exactly 16..80 bytes, 1..20 identical records, every total length 1000..1024 bytes (63/64-chunk boundary), malformed data; oracle: exact ordered entries per (integrity, confidentiality) combination, error for malformed data, list index 0,1,2.. in the BMC's log, request count, termination. DCMI: instance counts 0..255 x page sizes 1..8 x 3 entities x {standard IDs, DCMI IDs only, neither, standard IDs answer with an error}; oracle: every record ID in order, instance start 1,1+p,.., DCMI IDs queried iff the standard ones yielded nothing or an error.",
+    "Quick thins the DCMI count x page grid away from boundaries.",
+    "DESIGN.md section 4 C16")
+chk("C18", "histx+udp",
+    "exhaustive enumeration of operation histories (depth <= D + structured 60-step + dial histories over UDP) compared with an accounting reference model",
+    "All histories of <= 3 (thorough 4) operations over 18 kinds (session opens failing at each step, commands succeeding / failing / retried / expiring / unserialisable, closes succeeding and failing), a 60-step background with each kind inserted at each position, and DialV2 / session / transport-close histories over UDP loopback; every bmc_* counter and gauge delta from prometheus.DefaultGatherer must equal the accounting of what the harness observed (calls, errors returned, transmissions beyond the first, valid responses per code, opens minus closes).",
+    "One worker process per shard (the registry is process-global). Histograms are out of scope.",
+    "DESIGN.md section 4 C18, appendix A.5")
